@@ -21,8 +21,10 @@ def c_diag_kernels(ctx, args):
 
 
 def c_diag_pauli(ctx, args):
-    be, a, i0, causal = args
+    be, a, i0, causal = args[:4]
     n = len(a[0]) // 2
+    if be != 'np':
+        import torchclifford as tc, vlib.impl_torch as TT
     if be == 'np':
         P = NP.P(a)
         circ = pc.diagonalize(P, i0, causal=causal)
@@ -54,35 +56,67 @@ def c_diag_pauli(ctx, args):
         want_g[2 * i0 + 1] = 1
         if got[0] != want_g or got[1] not in (a[1] % 4, (a[1] + 2) % 4):
             return {'kind': 'oracle', 'where': be + ':diagonalize', 'observed': got, 'expected': [want_g, 'same or opposite sign'], 'tags': [be]}
-    if be == 'np':
-        circ.backward(Q)
-        if NP.oP(Q) != [a[0], a[1] % 4]:
-            return {'kind': 'oracle', 'where': 'np:diagonalize backward does not restore', 'observed': NP.oP(Q), 'expected': a}
+    M = NP if be == 'np' else TT
+    circ.backward(Q)
+    if M.oP(Q) != [a[0], a[1] % 4]:
+        return {'kind': 'oracle', 'where': be + ':diagonalize backward does not restore', 'observed': M.oP(Q), 'expected': a, 'tags': [be]}
+    # the returned circuit is a circuit like any other: compiled, copied, or both, it acts as it did gate by gate (on every generator), both ways
+    variant = args[4] if len(args) > 4 else 'orig'
+    if variant != 'orig':
+        gens = [[r[0], 0] for r in gen.identity_rows(n)] + [[list(a[0]), a[1] % 4]]
+        ref = M.oPL(circ.forward(M.PL(gens)))
+        lib = pc if be == 'np' else tc
+        c2 = lib.diagonalize(M.P(a), i0, causal=causal)
+        try:
+            if variant in ('compiled', 'compiled_copy'):
+                c2.compile()
+            if variant in ('copy', 'compiled_copy'):
+                c2 = c2.copy()
+            got2 = M.oPL(c2.forward(M.PL(gens)))
+            back2 = M.oPL(c2.backward(M.PL(ref)))
+        except Exception as e:
+            return {'kind': 'oracle', 'where': '%s:diagonalize(...) %s raised %s' % (be, variant, type(e).__name__), 'observed': str(e)[:120], 'expected': 'the same action', 'tags': [be, variant]}
+        if got2 != ref:
+            return {'kind': 'oracle', 'where': '%s:diagonalize(...) acts differently once %s' % (be, variant), 'observed': got2, 'expected': ref, 'tags': [be, variant]}
+        if back2 != gens:
+            return {'kind': 'oracle', 'where': '%s:diagonalize(...) %s: backward does not undo forward' % (be, variant), 'observed': back2, 'expected': gens, 'tags': [be, variant]}
     return None
 
 
 def c_diag_state(ctx, args):
     t = args[0]
-    variant = args[1] if len(args) > 1 else 'orig'      # orig | copy (before any run) | used_copy (copied after one forward) | compiled_copy
+    variant = args[1] if len(args) > 1 else 'orig'      # orig | copy (before any run) | used_copy (copied after one forward) | compiled | compiled_copy
+    be = args[2] if len(args) > 2 else 'np'
     n = len(t[0]) // 2
-    s = NP.STATE(t)
-    circ = pc.diagonalize(s)
-    if variant == 'copy':
-        circ = circ.copy()
-    elif variant == 'used_copy':
-        circ.forward(s.copy())
-        circ = circ.copy()
-    elif variant == 'compiled_copy':
-        circ.compile()
-        circ = circ.copy()
-    s2 = s.copy()
-    circ.forward(s2)
+    if be == 'np':
+        M, lib = NP, pc
+    else:
+        import torchclifford as tc, vlib.impl_torch as TT
+        M, lib = TT, tc
+    s = M.STATE(t)
+    try:
+        circ = lib.diagonalize(s)
+        if variant == 'copy':
+            circ = circ.copy()
+        elif variant == 'used_copy':
+            circ.forward(s.copy())
+            circ = circ.copy()
+        elif variant in ('compiled', 'compiled_copy'):
+            circ.compile()
+            if variant == 'compiled_copy':
+                circ = circ.copy()
+        s2 = s.copy()
+        circ.forward(s2)
+        after = M.oST(s2)
+        circ.backward(s2)
+        back = M.oST(s2)
+    except Exception as e:
+        return {'kind': 'oracle', 'where': '%s:diagonalize(state) %s raised %s' % (be, variant, type(e).__name__), 'observed': str(e)[:120], 'expected': 'a circuit that runs', 'tags': [be, variant]}
     zero = S.st_list(pc.zero_state(n))
-    if not S.same_state(S.st_list(s2), zero):
-        return {'kind': 'oracle', 'where': 'np:diagonalize(state).forward', 'observed': S.st_list(s2), 'expected': '|0...0>'}
-    circ.backward(s2)
-    if not S.same_state(S.st_list(s2), t):
-        return {'kind': 'oracle', 'where': 'np:diagonalize(state).backward', 'observed': S.st_list(s2), 'expected': t}
+    if not S.same_state(after, zero):
+        return {'kind': 'oracle', 'where': be + ':diagonalize(state).forward', 'observed': after, 'expected': '|0...0>', 'tags': [be, variant]}
+    if not S.same_state(back, t):
+        return {'kind': 'oracle', 'where': be + ':diagonalize(state).backward', 'observed': back, 'expected': t, 'tags': [be, variant]}
     return None
 
 
@@ -182,6 +216,9 @@ def run(ctx):
         be = 'np' if rng.random() < 0.8 else 'torch'
         do(ctx, 'diag_kernels', [be, g1, g2 if acq == 1 else None, i0], nontrivial=(be, 'k', it))
         do(ctx, 'diag_pauli', ['np', [g1, rng.choice([0, 2])], i0, rng.random() < 0.5], nontrivial=('d', it))
+        n2 = rng.randint(2, 5)
+        do(ctx, 'diag_pauli', [rng.choice(['np', 'torch']), [gen.rstr(rng, n2, nonzero=True), rng.choice([0, 2])], rng.randrange(n2), rng.random() < 0.5, rng.choice(['compiled', 'copy', 'compiled_copy'])],
+           nontrivial=('dv', it))
     for it in range(int(60 * B)):
         n = rng.randint(1, 5)
         do(ctx, 'diag_state', [gen.rtableau(rng, ctx.model, n, r=0)], nontrivial=('s', it))
@@ -190,6 +227,7 @@ def run(ctx):
         n = rng.randint(1, 4)
         do(ctx, 'diag_state', [gen.rtableau(rng, ctx.model, n, r=0, depth=rng.randint(0, 2))], nontrivial=('sb', it))
         do(ctx, 'diag_state', [gen.rtableau(rng, ctx.model, n, r=0), rng.choice(['copy', 'used_copy', 'compiled_copy'])], nontrivial=('sc', it))
+        do(ctx, 'diag_state', [gen.rtableau(rng, ctx.model, n, r=0), rng.choice(['orig', 'copy', 'used_copy', 'compiled', 'compiled_copy']), 'torch'], nontrivial=('st', it))
     # corpus: witnesses of the fixed identity-leading-term defect
     do(ctx, 'sbrg', [2, [[[0, 0, 0, 0], 3.0], [[0, 1, 0, 1], 1.0], [[1, 0, 1, 0], 0.5]], True], nontrivial='w_id1', sample=True)
     do(ctx, 'sbrg', [2, [[[0, 0, 0, 0], 3.0], [[1, 1, 0, 1], 1.0], [[0, 1, 1, 1], 0.5]], True], nontrivial='w_id2')
